@@ -96,12 +96,12 @@ class DrillholesGroupTable(ABC):
         for object_, data_dict in self.index_by_drillhole.items():
             data_list: list = []
             no_data_values: list = []
-            for name, info in data_dict.items():
-                if name in names:
-                    data_list.append(
-                        self.parent.data[name][info[0] : info[0] + info[1]]
-                    )
-                    no_data_values.append(self.nan_value_from_name(name))
+            for name in names:  # columns in the order of their labels
+                if name not in data_dict:
+                    continue
+                info = data_dict[name]
+                data_list.append(self.parent.data[name][info[0] : info[0] + info[1]])
+                no_data_values.append(self.nan_value_from_name(name))
 
             data_list = self._pad_arrays_to_association(
                 object_, data_list, no_data_values
